@@ -173,7 +173,13 @@ def run_property(prop, tier='quick', seed=0, out=sys.stdout):
             known_printed.append(line)
         else:
             new_violations.append((name, obs))
-    os.makedirs(os.path.join(VERIF, 'replays', prop), exist_ok=True)
+    rdir = os.path.join(VERIF, 'replays', prop)
+    os.makedirs(rdir, exist_ok=True)
+    for f in os.listdir(rdir):
+        try:
+            os.unlink(os.path.join(rdir, f))
+        except OSError:
+            pass
     vio_lines = []
     confirmed = []
     for name, obs in new_violations:
